@@ -43,7 +43,7 @@ class HeaderProbe:
     def files(self):
         return {"h.h": open(self.header).read(), "probe.c": open(self.csrc).read()}
 
-    def run_optset(self, tag, flags, valgrind=False, layout_only=False):
+    def run_optset(self, tag, flags, valgrind=False, layout_only=False, layout_only_recs=(), bindgen_env=None):
         """Returns dict(status, mism, obs, info, files, stage)."""
         d = self.d
         b = os.path.join(d, "b_%s.rs" % tag)
@@ -62,7 +62,8 @@ class HeaderProbe:
             return res
         view = probes.RustView(inv)
         src, info = probes.emit_rs(self.model, self.recs, view, b, c_naming="--c-naming" in flags,
-                                    namespaces="--enable-cxx-namespaces" in flags, layout_only=layout_only)
+                                    namespaces="--enable-cxx-namespaces" in flags, layout_only=layout_only,
+                                    layout_only_recs=layout_only_recs)
         res["info"] = info
         res["inv"] = inv
         prs = write(os.path.join(d, "probe_%s.rs" % tag), src)
@@ -117,6 +118,9 @@ def classify(res, tag, model=None):
         locs = re.findall(r"^error[^\n]*\n\s*--> (\S+?):\d+:\d+", err, re.M)
         in_bindings = [l for l in locs if l.endswith("/b_%s.rs" % tag)]
         asserts = ASSERT_RE.findall(err)
+        if re.search(r"^error\[E058[78]\]", err, re.M):
+            # rustc cannot lay the type out at all (packed vs align): every assertion that follows is a consequence. C01's recorded findings.
+            return [("deferred-c01", "rustc rejects the bindings: " + first_error(err), "c01.packed-contains-aligned")]
         if asserts and "E0080" in err:
             for a in asserts[:6]:
                 out.append(("violation", "layout assertion in the bindings fails to evaluate: %s\n%s" % (a, first_error(err)), None))
